@@ -10,16 +10,22 @@ import sys
 from pydantic import BaseModel
 
 from rv import core, sched
-from rv.faults import EXC_CLASSES, make_exception
+from rv import c18_sessions as S
+from rv.faults import EXC_CLASSES
 
 PID = "C18"
 LEVEL = "exploration"
 TECHNIQUE = "runtime monitoring: call counters and argument logs inside adversarial generator/worker/provider stubs, checked against the configured budgets"
-RULE = ("cases = full sweep of limits 0..4 x adversarial behaviour programs for the three loops, then seeded random "
-        "behaviour programs; non-trivial = the loop was driven past its first call (>=1 retry / regeneration / tool round); "
-        "distinct = (loop, limits, behaviour program, outcome)")
-ASSUMPTIONS = ["generators/workers/providers raise only Exception subclasses",
-               "completion markers are the five documented words, matched case-insensitively as substrings"]
+RULE = ("cases = full sweep of limits 0..4 x adversarial behaviour programs for the three loops (silent and verbose), three long-history "
+        "sessions on one instance each, then seeded random behaviour programs and seeded random SESSIONS (1-3 differently configured "
+        "instances used alternately and re-entrantly, limits reconfigured between calls, raising hooks, read-only and maintenance APIs "
+        "interleaved, each call judged against the limits in force when it started); non-trivial = the loop was driven past its first "
+        "call (>=1 retry / regeneration / tool round); distinct = (loop, configuration, behaviour program, outcome)")
+ASSUMPTIONS = ["generators/workers/providers/hooks raise only Exception subclasses",
+               "completion markers are the five documented words, matched case-insensitively as substrings",
+               "limits are non-negative ints (bools included); a budget >= 17 is only run against an adversary that stops by itself",
+               "a constructor may reject an out-of-domain option value (nan / negative thresholds ...): such a session is skipped, not judged",
+               "a final completion that raises and is asked again counts as a second final completion (own mechanism key)"]
 
 MARKERS = ["SUCCESS", "SOLVED", "COMPLETE", "DONE", "FINISHED"]
 
@@ -60,26 +66,10 @@ OUTPUTS = {
 INVALID_KINDS = ["invalid_type", "missing", "garbage", "empty", "other_schema", "truncated", "array", "twin_valid"]
 
 
-class Boom(Exception):
-    pass
-
-
-_INJECTED = []
-
-
-def inject(ctx, offset, message):
-    """build an exception of the shared fault family and remember the INSTANCE: only that very object may come back out of a loop"""
-    e = make_exception((ctx.case if isinstance(ctx.case, int) else 0) + offset, message)
-    _INJECTED.append(e)
-    return e
-
-
-class Runaway(BaseException):
-    """raised by a stub once a loop has gone far beyond any configured budget, so that a loop that never stops becomes a
-    recorded violation instead of a hang (BaseException: the loops' own handlers cannot swallow it)"""
-
-
-HARD_CAP = 60
+_INJECTED = S._INJECTED       # trimmed in place by S.inject
+inject = S.inject
+Runaway = S.Runaway
+HARD_CAP = S.HARD_CAP
 
 
 def heal_programs():
@@ -98,6 +88,11 @@ def heal_programs():
     progs.append(["other_schema", "echo", "grow", "valid"])
     progs.append(["invalid_type", "missing", "truncated", "other_schema", "array", "garbage", "valid"])   # never repeats an invalid output
     progs.append(["grow"] * 6 + ["valid"])
+    progs.append(["verbose"])                     # long outputs, different on every attempt
+    progs.append(["verbose_json", "verbose"])
+    progs.append(["same"])                        # the very same string object on every attempt
+    progs.append(["fresh", "same"])               # equal but distinct objects
+    progs.append(["blank", "braces", "empty_obj", "nan_price"])
     return progs
 
 
@@ -122,6 +117,17 @@ def swarm_programs():
     for mem in ("none", "window2", "prefilled"):
         progs.append({"worker": "unique", "marker_at": None, "memory": mem})
         progs.append({"worker": "unique", "marker_at": (1, 2), "marker": "DONE", "memory": mem})
+    # outputs that carry no marker themselves although a marker can be read across the seam of two / three consecutive ones
+    for w in ["seam", "seam-bare", "seam3", "seam-x"]:
+        progs.append({"worker": w, "marker_at": None})
+    progs.append({"worker": "seam", "marker_at": (2, 3), "marker": "done"})
+    # the marker words occur in the task / in the hints, never in an output
+    progs.append({"worker": "unique", "marker_at": None, "task": "report SUCCESS when the puzzle is SOLVED"})
+    progs.append({"worker": "near", "marker_at": None, "task": "get it DONE", "hints": "marker"})
+    progs.append({"worker": "long", "marker_at": None})
+    progs.append({"worker": "constant-object", "marker_at": None})
+    progs.append({"worker": "unique", "marker_at": None, "shared_worker": True})
+    progs.append({"worker": "seam", "marker_at": (1, 1), "marker": "Solved", "shared_worker": True})
     return progs
 
 
@@ -143,6 +149,17 @@ def tool_programs():
     progs.append({"calls_per_round": [1], "forever": True, "provider_raises_round": 2})
     progs.append({"calls_per_round": [1], "forever": True, "reentrant_tool": True})
     progs.append({"calls_per_round": [2, 1], "forever": True, "reentrant_tool": True})
+    # what the provider SAYS (blank / whitespace / long / format-like text) in the final completion and in the tool rounds
+    for text in ["empty", "space", "ws", "long", "braces", "tool-ish"]:
+        progs.append({"calls_per_round": [1], "forever": True, "final": text})
+        progs.append({"calls_per_round": [2], "forever": True, "round_text": text, "final": text})
+    progs.append({"calls_per_round": [1, 2, 0], "forever": False, "round_text": "empty", "final": "empty"})
+    # a provider that hands back the very same response / list / call objects every round
+    progs.append({"calls_per_round": [2], "forever": True, "const": True})
+    progs.append({"calls_per_round": [1], "forever": True, "const": True, "final": "empty", "round_text": "empty"})
+    # the final completion fails
+    progs.append({"calls_per_round": [1], "forever": True, "final_raises": True})
+    progs.append({"calls_per_round": [0], "forever": True, "final_raises": True, "no_tools": True})
     return progs
 
 
@@ -153,14 +170,24 @@ SWEEP = ([("heal", m, i) for m in LIMITS for i in range(len(HEAL_PROGS))]
          + [("tool", m, i) for m in LIMITS for i in range(len(TOOL_PROGS))])
 
 
+LONG = ["tool", "heal", "swarm"]          # cases len(SWEEP)+0..2: one long-history session each
+
+
 def plan(tier):
-    extra = 20000 if tier == "quick" else 400000
+    extra = 26000 if tier == "quick" else 400000
     return {"cases": len(SWEEP) + extra, "shards": 8 if tier == "quick" else 14,
-            "min_nontrivial": 200, "timeout": 300 if tier == "quick" else 1200,
+            "min_nontrivial": 200, "timeout": 600 if tier == "quick" else 2400,
             "require": {"generator_calls": 1000, "worker_steps": 1000, "provider_tool_rounds": 300,
                         "degraded_results": 20, "healed_results": 20, "swarm_success": 20,
                         "tool_loop_exhausted": 20, "heal_runs_with_stock_chaperone": 500, "echoed_outputs_checked": 200,
-                        "reentrant_tool_loops": 100, "thread_schedules": 1000, "prior_loops_on_namesake_schema": 300}}
+                        "reentrant_tool_loops": 100, "thread_schedules": 1000, "prior_loops_on_namesake_schema": 300,
+                        # round-3 monitors
+                        "sessions": 500, "session_heal_calls": 500, "session_swarm_calls": 500, "session_tool_calls": 500,
+                        "sessions_alternating_instances": 100, "nested_calls": 100, "verbose_calls": 1000, "reads_done": 1000,
+                        "differential_runs": 200, "calls_after_a_raise": 50, "hook_raises": 20, "maintenance_calls": 100,
+                        "reconfigured_between_calls": 100, "seam_outputs": 500, "blank_final_completions": 100,
+                        "long_history_sessions": 1, "long_history_operations": 10000,
+                        "sessions_under_virtual_clock": 300, "nuclei_sharing_objects": 50}}
 
 
 def run_case(ctx, n):
@@ -169,25 +196,39 @@ def run_case(ctx, n):
         if kind == "heal":
             case_heal(ctx, lim, HEAL_PROGS[i], 0.1)
             case_heal(ctx, lim, HEAL_PROGS[i], 0.1, plain=True, prior_twin=True)
-            return case_heal(ctx, lim, HEAL_PROGS[i], 0.1, plain=True)
+            case_heal(ctx, lim, HEAL_PROGS[i], 0.1, silent=False)
+            return case_heal(ctx, lim, HEAL_PROGS[i], 0.1, plain=True, silent=False)
         if kind == "swarm":
-            return case_swarm(ctx, lim[0], lim[1], SWARM_PROGS[i], 0.9)
-        return case_tool(ctx, lim, TOOL_PROGS[i])
+            case_swarm(ctx, lim[0], lim[1], SWARM_PROGS[i], 0.9)
+            return case_swarm(ctx, lim[0], lim[1], SWARM_PROGS[i], 2 / 3, silent=False, step_timeout=0.0)
+        case_tool(ctx, lim, TOOL_PROGS[i])
+        return case_tool(ctx, lim, TOOL_PROGS[i], silent=False)
     rng = ctx.rng(n)
+    if n - len(SWEEP) < len(LONG):
+        return S.case_long(ctx, rng, LONG[n - len(SWEEP)], 20000 if ctx.tier == "quick" else 60000)
     if n % (1500 if ctx.tier == "quick" else 20000) == 7:
         return case_tool_threads(ctx, n, rng)
-    kind = rng.choice(["heal", "swarm", "tool"])
+    kind = rng.choice(["heal", "swarm", "tool", "heal", "swarm", "tool", "heal-session", "swarm-session", "tool-session"])
+    if kind.endswith("-session"):
+        return S.case_session(ctx, rng, kind)
     if kind == "heal":
-        toks = list(OUTPUTS) + ["echo", "grow", "raise"]
+        toks = list(OUTPUTS) + ["echo", "grow", "raise", "verbose", "verbose_json", "same", "fresh", "blank", "braces"]
         prog = [rng.choice(toks) for _ in range(rng.randint(1, 7))]
         if rng.random() < 0.5:
             prog = [t if t not in ("valid", "fenced") else "missing" for t in prog[:-1]] + [prog[-1]]
         if rng.random() < 0.25:
             prog = prog + ["twin_valid"]
-        return case_heal(ctx, rng.randint(0, 6), prog, rng.choice([0.0, 0.1, 0.5, 1.0]), plain=rng.random() < 0.5, prior_twin=rng.random() < 0.4)
+        return case_heal(ctx, rng.randint(0, 6), prog, rng.choice([0.0, 0.1, 0.5, 1.0]), plain=rng.random() < 0.5, prior_twin=rng.random() < 0.4,
+                         silent=rng.random() < 0.6)
     if kind == "swarm":
-        prog = {"worker": rng.choice(["unique", "repeat", "empty", "two_cycle", "near"]), "marker_at": None,
+        prog = {"worker": rng.choice(["unique", "repeat", "empty", "two_cycle", "near"] + S.WORKER_KINDS), "marker_at": None,
                 "memory": rng.choice(["full", "full", "none", "window2", "prefilled"])}
+        if rng.random() < 0.3:
+            prog["task"] = rng.choice(S.TASKS)
+        if rng.random() < 0.15:
+            prog["hints"] = "marker"
+        if rng.random() < 0.15:
+            prog["shared_worker"] = True
         if rng.random() < 0.6:
             prog["marker_at"] = (rng.randint(0, 5), rng.randint(0, 6))
             prog["marker"] = rng.choice(["SUCCESS", "done", "abcCOMPLETEd", "solved", "Finished."])
@@ -198,7 +239,8 @@ def run_case(ctx, n):
             prog["raise_factory"] = rng.randint(0, 3)
         elif r < 0.2:
             prog["raise_summarizer"] = rng.randint(0, 2)
-        return case_swarm(ctx, rng.randint(0, 5), rng.randint(0, 6), prog, rng.choice([0.0, 0.5, 0.9, 1.0]))
+        return case_swarm(ctx, rng.randint(0, 5), rng.randint(0, 6), prog, rng.choice([0.0, 0.5, 0.9, 1.0, 2 / 3, 1 / 3, 0.67]),
+                          silent=rng.random() < 0.6, step_timeout=rng.choice(S.STEP_TIMEOUTS))
     prog = {"calls_per_round": [rng.randint(0, 4) for _ in range(rng.randint(1, 5))], "forever": rng.random() < 0.6}
     for flag, p in [("unknown_tool", .15), ("raising_tool", .15), ("same_ids", .1), ("no_cwt", .05), ("no_tools", .05), ("reentrant_tool", .15)]:
         if rng.random() < p:
@@ -207,11 +249,25 @@ def run_case(ctx, n):
         prog["auto_execute"] = False
     if rng.random() < 0.1:
         prog["provider_raises_round"] = rng.randint(1, 4)
-    return case_tool(ctx, rng.randint(0, 6), prog)
+    if rng.random() < 0.4:
+        prog["final"] = rng.choice(list(S.TEXTS))
+    if rng.random() < 0.3:
+        prog["round_text"] = rng.choice(list(S.TEXTS))
+    r = rng.random()
+    if r < 0.1 and not (prog.get("unknown_tool") or prog.get("same_ids")):
+        prog["const"] = True
+    elif r < 0.18:
+        prog["final_raises"] = True
+    return case_tool(ctx, rng.randint(0, 6), prog, silent=rng.random() < 0.6)
 
 
 # ------------------------------------------------------------------ healing loop
-def case_heal(ctx, max_retries, prog, decay, plain=False, prior_twin=False, schema=None):
+def case_heal(ctx, max_retries, prog, decay, plain=False, prior_twin=False, schema=None, silent=True):
+    with S.quiet():
+        return _case_heal(ctx, max_retries, prog, decay, plain, prior_twin, silent)
+
+
+def _case_heal(ctx, max_retries, prog, decay, plain, prior_twin, silent):
     from operon_ai.healing.chaperone_loop import ChaperoneLoop, HealingOutcome
     from operon_ai.organelles.chaperone import Chaperone
 
@@ -228,12 +284,7 @@ def case_heal(ctx, max_retries, prog, decay, plain=False, prior_twin=False, sche
         if tok == "raise":
             outs.append(None)
             raise inject(ctx, 0, "generator failed at attempt %d" % k)
-        if tok == "echo":
-            o = error_context if error_context is not None else "no error yet"
-        elif tok == "grow":
-            o = "{" + '"x": 1, ' * (k * 50 + 1) + '"name": 3}'
-        else:
-            o = OUTPUTS[tok]
+        o = OUTPUTS[tok] if tok in OUTPUTS else S.heal_output(None, k, tok, error_context)
         outs.append(o)
         return o
 
@@ -265,32 +316,34 @@ def case_heal(ctx, max_retries, prog, decay, plain=False, prior_twin=False, sche
             pass
     if plain:
         ctx.count("heal_runs_with_stock_chaperone")
-    loop = ChaperoneLoop(generator=generator, chaperone=(Chaperone(silent=True) if plain else TaggingChaperone(silent=True)), schema=Item,
-                         max_retries=max_retries, confidence_decay=decay, silent=True)
-    desc = {"loop": "heal", "max_retries": max_retries, "program": prog, "decay": decay}
+    if not silent:
+        ctx.count("verbose_calls")
+    loop = ChaperoneLoop(generator=generator, chaperone=(Chaperone(silent=silent) if plain else TaggingChaperone(silent=silent)), schema=Item,
+                         max_retries=max_retries, confidence_decay=decay, silent=silent)
+    desc = {"loop": "heal", "max_retries": max_retries, "program": prog, "decay": decay, "silent": silent}
     raised = None
     result = None
     try:
         result = loop.heal("make an item")
     except tuple(EXC_CLASSES) as e:
         if not any(e is x for x in _INJECTED[-50:]):
-            ctx.violation("heal-raises", "heal() raised %s on its own" % type(e).__name__, dict(desc, error=repr(e)))
+            S.viol(ctx, "heal-raises", "heal() raised %s on its own" % type(e).__name__, dict(desc, error=repr(e)))
             return
         raised = e
     except Runaway as e:
-        ctx.violation("heal-call-budget", "healing loop ran away: %s with max_retries=%d" % (e, max_retries), desc)
+        S.viol(ctx, "heal-call-budget", "healing loop ran away: %s with max_retries=%d" % (e, max_retries), desc)
         return
     except Exception as e:
-        ctx.violation("heal-raises", "heal() raised %s although the generator did not" % type(e).__name__,
+        S.viol(ctx, "heal-raises", "heal() raised %s although the generator did not" % type(e).__name__,
                       dict(desc, error=repr(e)))
         return
     ncalls = len(calls)
     desc["generator_calls"] = ncalls
     if ncalls > max_retries + 1:
-        ctx.violation("heal-call-budget", "generator called %d times with max_retries=%d" % (ncalls, max_retries), desc)
+        S.viol(ctx, "heal-call-budget", "generator called %d times with max_retries=%d" % (ncalls, max_retries), desc)
     # error-context threading, judged at the generator (independent fresh validator computes the expected trace)
     if calls and calls[0][1] is not None:
-        ctx.violation("heal-first-context", "first generator call received an error context", dict(desc, ctx0=calls[0][1]))
+        S.viol(ctx, "heal-first-context", "first generator call received an error context", dict(desc, ctx0=calls[0][1]))
     # stale feedback: if this implementation echoes the previous attempt's output in the context (observed on retry 1), then a later
     # retry must echo ITS previous attempt's output, not an older one
     def marker(o):
@@ -303,7 +356,7 @@ def case_heal(ctx, max_retries, prog, decay, plain=False, prior_twin=False, sche
                 continue
             ctx.count("echoed_outputs_checked")
             if mk not in calls[k][1] and any(m and m != mk and m in calls[k][1] for m in older):
-                ctx.violation("heal-context-stale-output", "retry %d was fed the context of an older attempt (it echoes an older output, not attempt %d's)" % (k, k - 1),
+                S.viol(ctx, "heal-context-stale-output", "retry %d was fed the context of an older attempt (it echoes an older output, not attempt %d's)" % (k, k - 1),
                               dict(desc, attempt=k, context=calls[k][1], previous_output=outs[k - 1]))
                 break
     for k in range(1, ncalls):
@@ -313,13 +366,13 @@ def case_heal(ctx, max_retries, prog, decay, plain=False, prior_twin=False, sche
         exp_trace = traces[k - 1] if k - 1 < len(traces) and traces[k - 1] else "<no fold recorded for attempt %d>" % (k - 1)
         ctx.count("retry_contexts_checked")
         if got is None or exp_trace not in got:
-            ctx.violation("heal-context-threading",
+            S.viol(ctx, "heal-context-threading",
                           "retry %d was not given the error of attempt %d" % (k, k - 1),
                           dict(desc, attempt=k, context=got, expected_to_contain=exp_trace))
             break
     for k, (p, _) in enumerate(calls):
         if p != "make an item":
-            ctx.violation("heal-prompt", "generator received a different prompt", dict(desc, prompt=p))
+            S.viol(ctx, "heal-prompt", "generator received a different prompt", dict(desc, prompt=p))
             break
     if raised is not None:
         ctx.count("heal_generator_raised")
@@ -337,24 +390,24 @@ def case_heal(ctx, max_retries, prog, decay, plain=False, prior_twin=False, sche
             except Exception:
                 ok = False
         if not ok or result.folded is None or not result.folded.valid:
-            ctx.violation("heal-valid-without-structure", "outcome %s with a structure that is not a valid Item: %r" % (
+            S.viol(ctx, "heal-valid-without-structure", "outcome %s with a structure that is not a valid Item: %r" % (
                 result.outcome.value, s), desc)
         if (result.outcome == HealingOutcome.VALID_FIRST_TRY) != (ncalls == 1):
-            ctx.violation("heal-outcome-label", "outcome %s after %d generator calls" % (result.outcome.value, ncalls), desc)
+            S.viol(ctx, "heal-outcome-label", "outcome %s after %d generator calls" % (result.outcome.value, ncalls), desc)
         if result.ubiquitin_tagged:
-            ctx.violation("heal-valid-tagged", "valid result carries the degradation tag", desc)
+            S.viol(ctx, "heal-valid-tagged", "valid result carries the degradation tag", desc)
         if not (0.0 <= result.final_confidence <= 1.0):
-            ctx.violation("heal-confidence-range", "final_confidence %r" % result.final_confidence, desc)
+            S.viol(ctx, "heal-confidence-range", "final_confidence %r" % result.final_confidence, desc)
     else:
         ctx.count("degraded_results")
         if result.outcome != HealingOutcome.DEGRADED:
-            ctx.violation("heal-unknown-outcome", "outcome %r" % (result.outcome,), desc)
+            S.viol(ctx, "heal-unknown-outcome", "outcome %r" % (result.outcome,), desc)
         if not result.ubiquitin_tagged or result.final_confidence != 0 or result.structure is not None \
                 or (result.folded is not None and result.folded.valid):
-            ctx.violation("heal-degraded-shape", "DEGRADED result tagged=%r confidence=%r structure=%r" % (
+            S.viol(ctx, "heal-degraded-shape", "DEGRADED result tagged=%r confidence=%r structure=%r" % (
                 result.ubiquitin_tagged, result.final_confidence, result.structure), desc)
     if len(result.attempts) != ncalls:
-        ctx.violation("heal-attempt-log", "%d attempts logged for %d generator calls" % (len(result.attempts), ncalls), desc)
+        S.viol(ctx, "heal-attempt-log", "%d attempts logged for %d generator calls" % (len(result.attempts), ncalls), desc)
     if ncalls >= 2:
         ctx.nontrivial(("heal", max_retries, tuple(prog), result.outcome.value, ncalls))
     ctx.sample(desc)
@@ -362,14 +415,22 @@ def case_heal(ctx, max_retries, prog, decay, plain=False, prior_twin=False, sche
 
 # ------------------------------------------------------------------ swarm
 NEAR = ["succes", "DON E", "finish", "solv ed", "complet"]
+CONSTANT_OUTPUT = "still the very same string object"
 
 
-def case_swarm(ctx, max_regen, max_steps, prog, threshold):
+def case_swarm(ctx, max_regen, max_steps, prog, threshold, silent=True, step_timeout=None):
+    with S.quiet():
+        return _case_swarm(ctx, max_regen, max_steps, prog, threshold, silent, step_timeout)
+
+
+def _case_swarm(ctx, max_regen, max_steps, prog, threshold, silent, step_timeout):
     from operon_ai.healing.regenerative_swarm import RegenerativeSwarm, WorkerMemory
+    task_text = prog.get("task", "task")
 
     factory_calls = []
     steps = {}          # worker index -> outputs
     summarizer_calls = []
+    pool = []
 
     class W:
         def __init__(self, wid, idx):
@@ -397,6 +458,13 @@ def case_swarm(ctx, max_regen, max_steps, prog, threshold):
                     o = ""
                 elif kind == "two_cycle":
                     o = "ab"[k % 2]
+                elif kind == "long":
+                    o = ("no progress at step %d-%d; " % (self.idx, k)) * 200
+                elif kind == "constant-object":
+                    o = CONSTANT_OUTPUT
+                elif kind.startswith("seam"):
+                    ctx.count("seam_outputs")
+                    o = S.seam_output(kind, self.idx, k)
                 else:
                     o = NEAR[k % len(NEAR)] + " %d" % k
             steps[self.idx].append(o)
@@ -421,6 +489,12 @@ def case_swarm(ctx, max_regen, max_steps, prog, threshold):
         if prog.get("raise_factory") == idx:
             raise inject(ctx, 2, "factory failed")
         steps[idx] = []
+        if prog.get("shared_worker"):
+            # a pooled agent: the SAME worker object is handed out for every spawn; steps are attributed to the current spawn
+            if not pool:
+                pool.append(W(name, idx))
+            pool[0].id, pool[0].idx = name, idx
+            return pool[0]
         return W(name, idx)
 
     def summarizer(mem):
@@ -428,36 +502,44 @@ def case_swarm(ctx, max_regen, max_steps, prog, threshold):
         summarizer_calls.append(i)
         if prog.get("raise_summarizer") == i:
             raise inject(ctx, 3, "summarizer failed")
+        if prog.get("hints") == "marker":
+            return ["the previous worker was nearly DONE", "SUCCESS is close", "hint %d" % i]
         return ["hint %d" % i]
 
+    kw = {}
+    if step_timeout is not None:
+        from datetime import timedelta
+        kw["step_timeout"] = timedelta(seconds=step_timeout)
+    if not silent:
+        ctx.count("verbose_calls")
     swarm = RegenerativeSwarm(worker_factory=factory, summarizer=summarizer, entropy_threshold=threshold,
-                              max_steps_per_worker=max_steps, max_regenerations=max_regen, silent=True)
+                              max_steps_per_worker=max_steps, max_regenerations=max_regen, silent=silent, **kw)
     desc = {"loop": "swarm", "max_regenerations": max_regen, "max_steps_per_worker": max_steps,
-            "program": prog, "entropy_threshold": threshold}
+            "program": prog, "entropy_threshold": threshold, "silent": silent, "step_timeout": step_timeout}
     result = None
     raised = False
     try:
-        result = swarm.supervise("task")
+        result = swarm.supervise(task_text)
     except tuple(EXC_CLASSES) as e:
         if not any(e is x for x in _INJECTED[-50:]):
-            ctx.violation("swarm-raises", "supervise() raised %s on its own" % type(e).__name__, dict(desc, error=repr(e)))
+            S.viol(ctx, "swarm-raises", "supervise() raised %s on its own" % type(e).__name__, dict(desc, error=repr(e)))
             return
         raised = True
     except Runaway as e:
         mech = "swarm-step-budget" if "stepped" in str(e) else "swarm-spawn-budget"
-        ctx.violation(mech, "swarm ran away: %s (max_regenerations=%d, max_steps_per_worker=%d)" % (e, max_regen, max_steps), desc)
+        S.viol(ctx, mech, "swarm ran away: %s (max_regenerations=%d, max_steps_per_worker=%d)" % (e, max_regen, max_steps), desc)
         return
     except Exception as e:
-        ctx.violation("swarm-raises", "supervise() raised %s" % type(e).__name__, dict(desc, error=repr(e)))
+        S.viol(ctx, "swarm-raises", "supervise() raised %s" % type(e).__name__, dict(desc, error=repr(e)))
         return
     desc["factory_calls"] = len(factory_calls)
     desc["steps_per_worker"] = {k: len(v) for k, v in steps.items()}
     if len(factory_calls) > max_regen + 1:
-        ctx.violation("swarm-spawn-budget", "factory called %d times with max_regenerations=%d" % (
+        S.viol(ctx, "swarm-spawn-budget", "factory called %d times with max_regenerations=%d" % (
             len(factory_calls), max_regen), desc)
     for idx, outs in steps.items():
         if len(outs) > max_steps:
-            ctx.violation("swarm-step-budget", "worker %d stepped %d times with max_steps_per_worker=%d" % (
+            S.viol(ctx, "swarm-step-budget", "worker %d stepped %d times with max_steps_per_worker=%d" % (
                 idx, len(outs), max_steps), desc)
             break
     if raised:
@@ -470,13 +552,13 @@ def case_swarm(ctx, max_regen, max_steps, prog, threshold):
         produced = [o for outs in steps.values() for o in outs if o is not None]
         carries = isinstance(out, str) and any(m in out.upper() for m in MARKERS)
         if not carries or out not in produced:
-            ctx.violation("swarm-success-without-marker", "success reported for output %r" % (out,), desc)
+            S.viol(ctx, "swarm-success-without-marker", "success reported for output %r" % (out,), desc)
     else:
         ctx.count("swarm_failure")
         if result.output is not None and not (isinstance(result.output, str) and any(m in result.output.upper() for m in MARKERS)):
-            ctx.violation("swarm-failure-output", "failure released an output %r" % (result.output,), desc)
+            S.viol(ctx, "swarm-failure-output", "failure released an output %r" % (result.output,), desc)
     if result.total_workers_spawned != len(factory_calls):
-        ctx.violation("swarm-spawn-count", "reports %d workers, factory saw %d" % (
+        S.viol(ctx, "swarm-spawn-count", "reports %d workers, factory saw %d" % (
             result.total_workers_spawned, len(factory_calls)), desc)
     if len(factory_calls) >= 2 or sum(len(v) for v in steps.values()) >= 2:
         ctx.nontrivial(("swarm", max_regen, max_steps, repr(prog), threshold, result.success, len(factory_calls)))
@@ -484,15 +566,35 @@ def case_swarm(ctx, max_regen, max_steps, prog, threshold):
 
 
 # ------------------------------------------------------------------ tool loop
-def case_tool(ctx, max_iter, prog):
+def case_tool(ctx, max_iter, prog, silent=True):
+    with S.quiet():
+        return _case_tool(ctx, max_iter, prog, silent)
+
+
+def _case_tool(ctx, max_iter, prog, silent):
     from operon_ai.organelles.nucleus import Nucleus
     from operon_ai.organelles.mitochondria import Mitochondria
     from operon_ai.providers import LLMResponse, ToolCall
 
     log = {"cwt": 0, "complete": 0, "tool_runs": 0, "requested": 0, "prompts": []}
+    const = {}
 
     def resp(text):
         return LLMResponse(content=text, model="stub", tokens_used=1, latency_ms=0.0)
+
+    def final():
+        log["complete"] += 1
+        ctx.count("provider_complete")
+        if log["complete"] > 1 + HARD_CAP:
+            raise Runaway("plain completion called %d times" % log["complete"])
+        if prog.get("final_raises"):
+            raise inject(ctx, 7, "final completion failed")
+        text = S.TEXTS[prog.get("final", "final")]
+        if not text.strip():
+            ctx.count("blank_final_completions")
+        if prog.get("const"):
+            return const.setdefault("final", resp(text))
+        return resp(text)
 
     class Provider:
         name = "stub"
@@ -501,9 +603,7 @@ def case_tool(ctx, max_iter, prog):
             return True
 
         def complete(self, prompt, config=None):
-            log["complete"] += 1
-            ctx.count("provider_complete")
-            return resp("final")
+            return final()
 
         def complete_with_tools(self, prompt, tools=None, config=None):
             if prompt.startswith("sub-question"):
@@ -526,6 +626,13 @@ def case_tool(ctx, max_iter, prog):
                 ncalls = cpr[-1]
             else:
                 ncalls = 0
+            text = S.TEXTS[prog["round_text"]] if "round_text" in prog else "round %d" % r
+            if prog.get("const"):
+                # the very same response object, list object and (repeated) call object in every round
+                if ncalls not in const:
+                    const[ncalls] = (resp(text), [ToolCall(id="k", name="probe", arguments={"x": 1})] * ncalls)
+                log["requested"] += ncalls
+                return const[ncalls]
             calls = []
             for j in range(ncalls):
                 name = "missing_tool" if prog.get("unknown_tool") and j == 0 else "probe"
@@ -533,7 +640,7 @@ def case_tool(ctx, max_iter, prog):
                 calls.append(ToolCall(id=cid, name=name, arguments={"x": j}))
                 if name == "probe":
                     log["requested"] += 1
-            return resp("round %d" % r), calls
+            return resp(text), calls
 
     class ProviderNoTools:
         name = "stub-plain"
@@ -542,8 +649,7 @@ def case_tool(ctx, max_iter, prog):
             return True
 
         def complete(self, prompt, config=None):
-            log["complete"] += 1
-            return resp("final")
+            return final()
 
     def probe(x=0):
         log["tool_runs"] += 1
@@ -556,43 +662,46 @@ def case_tool(ctx, max_iter, prog):
             nucleus.transcribe_with_tools("sub-question %d" % log["tool_runs"], mito, max_iterations=1)
         return x * 2
 
-    mito = Mitochondria(silent=True)
+    if not silent:
+        ctx.count("verbose_calls")
+    mito = Mitochondria(silent=silent)
     if not prog.get("no_tools"):
         mito.register_function("probe", probe, "probe tool")
     provider = ProviderNoTools() if prog.get("no_cwt") else Provider()
     nucleus = Nucleus(provider=provider)
     auto = prog.get("auto_execute", True)
-    desc = {"loop": "tool", "max_iterations": max_iter, "program": prog}
+    desc = {"loop": "tool", "max_iterations": max_iter, "program": prog, "silent": silent}
     raised = False
     try:
         r = nucleus.transcribe_with_tools("question", mito, max_iterations=max_iter, auto_execute=auto)
     except tuple(EXC_CLASSES) as e:
         if not any(e is x for x in _INJECTED[-50:]):
-            ctx.violation("tool-loop-raises", "transcribe_with_tools raised %s on its own" % type(e).__name__, dict(desc, error=repr(e)))
+            S.viol(ctx, "tool-loop-raises", "transcribe_with_tools raised %s on its own" % type(e).__name__, dict(desc, error=repr(e)))
             return
         raised = True
     except Runaway as e:
-        ctx.violation("tool-round-budget", "tool loop ran away: %s with max_iterations=%d" % (e, max_iter), desc)
+        S.viol(ctx, "tool-round-budget", "tool loop ran away: %s with max_iterations=%d" % (e, max_iter), desc)
         return
     except Exception as e:
-        ctx.violation("tool-loop-raises", "transcribe_with_tools raised %s" % type(e).__name__, dict(desc, error=repr(e)))
+        S.viol(ctx, "tool-loop-raises", "transcribe_with_tools raised %s" % type(e).__name__, dict(desc, error=repr(e)))
         return
     desc.update(cwt=log["cwt"], complete=log["complete"], tool_runs=log["tool_runs"])
     if log["cwt"] > max_iter:
-        ctx.violation("tool-round-budget", "complete_with_tools called %d times with max_iterations=%d" % (
+        S.viol(ctx, "tool-round-budget", "complete_with_tools called %d times with max_iterations=%d" % (
             log["cwt"], max_iter), desc)
     if log["complete"] > 1:
-        ctx.violation("tool-final-completion", "plain completion called %d times" % log["complete"], desc)
+        S.viol(ctx, "tool-final-completion:after-error" if prog.get("final_raises") else "tool-final-completion",
+               "plain completion called %d times" % log["complete"], desc)
     if log["tool_runs"] > log["requested"]:
-        ctx.violation("tool-executed-more-than-requested", "tool body ran %d times for %d requested calls" % (
+        S.viol(ctx, "tool-executed-more-than-requested", "tool body ran %d times for %d requested calls" % (
             log["tool_runs"], log["requested"]), desc)
     if not auto and log["tool_runs"]:
-        ctx.violation("tool-auto-execute-off", "tool ran although auto_execute=False", desc)
+        S.viol(ctx, "tool-auto-execute-off", "tool ran although auto_execute=False", desc)
     if not raised:
         if log["cwt"] == max_iter and log["complete"] == 1 and max_iter > 0:
             ctx.count("tool_loop_exhausted")
         if not isinstance(r, LLMResponse):
-            ctx.violation("tool-return-type", "returned %r" % (r,), desc)
+            S.viol(ctx, "tool-return-type", "returned %r" % (r,), desc)
     if log["cwt"] >= 2 or (log["cwt"] >= 1 and log["tool_runs"] >= 1):
         ctx.nontrivial(("tool", max_iter, json.dumps(prog, sort_keys=True), log["cwt"], log["complete"], log["tool_runs"]))
     ctx.sample(desc)
@@ -645,7 +754,7 @@ def case_tool_threads(ctx, n, rng):
         for i in range(2):
             e = sc.errors[i]
             if isinstance(e, Runaway) or prov.rounds.get("q%d" % i, 0) > limits[i] or prov.finals.get("q%d" % i, 0) > 1:
-                ctx.violation("tool-round-budget:concurrent", "loop q%d did %d tool rounds / %d final completions with max_iterations=%d while another loop ran on the same nucleus" % (
+                S.viol(ctx, "tool-round-budget:concurrent", "loop q%d did %d tool rounds / %d final completions with max_iterations=%d while another loop ran on the same nucleus" % (
                     i, prov.rounds.get("q%d" % i, 0), prov.finals.get("q%d" % i, 0), limits[i]), w)
                 break
         if sc.switch_while_other_inside:
